@@ -29,6 +29,12 @@ CHECKS = {
  'C11': dict(text='Exhaustive over the finite data: one event per non-comment line of the 17 registry files (raw text + what numdb\'s parser made of it), re-read by TLC with the line grammar of NumDBFile.tla (R1 understood completely, R2 well-formed, R2n consistent nesting as session state); one reach event per entry (R3; sampled to 4000 per file in quick); consumer witnesses built BY THE SPEC (Gen_Witness.tla: an IBAN per country structure with Mod 97-10 check digits, an ISBN-13 per publisher range with EAN check digit) plus GS1 element strings and postal codes, replayed into iban/isbn/gs1_128/at.postleitzahl (W1 W2).',
              note='Not every consumer has a witness builder yet (banks, locations, tax offices are covered by R3 through numdb only).',
              tech='TLC trace validation with a TLA+ line grammar; TLC-generated consumer witnesses replayed into the code', ref='DESIGN.md §4 C11'),
+ 'C13': dict(text='Runtime.tla models one Python process: the numdb cache and the country-module caches with their check/parse/store/use steps, threads, I/O faults, and the dict objects handed to callers. TLC checks PureResults/KeyInjective/CacheMonotone for all interleavings of the code\'s model (2 threads quick, 3 threads thorough) and must REFUTE five hazard variants (publish before fill, basename key, aliased property dicts, cache before membership test, publish-before-fill + fault). TLC-generated call histories (with in-place mutation of every returned container), 16-thread barrier-released first-use rounds and all 70 two-thread hook-level schedules (replayed with a blocking scheduler in the hooks) are executed in fresh interpreters; TLC validates every result against the same call in a pristine interpreter (H1) and every hook event against the cache steps of the spec (A1-A4).',
+             note='Hooks: STDNUM_VERIF-guarded, add-only lines at the cache linearization points. Assumes the CPython GIL/import lock; races outside hooked regions are seen only when the stress hits them.',
+             tech='TLC model checking of interleavings (Runtime.tla, hazard variants refuted) + TLC-generated histories/schedules replayed + trace validation of hook events and results', ref='DESIGN.md §4 C13'),
+ 'C14': dict(text='The clean-up map is observed for all 1,114,112 code points (coverage is session state of the trace spec) with the Unicode facts of each character; TLC constrains it (U1 digit only from decimal value, U2 space only from Zs, U3 ASCII alphanumerics fixed, U4 no letters produced, U5 targets are ASCII fixed points), checks every entry of the library\'s declared table alone and in context (T1), validates clean() on TLC-generated class strings x delete sets against the transducer Clean.tla built from the observed map (U6-U9) and the look-alike spellings of valid numbers of every module end to end (U10).',
+             note='Unicode facts come from unicodedata (trusted environment).',
+             tech='TLC trace validation against a TLA+ transducer (Clean.tla), exhaustive over code points', ref='DESIGN.md §4 C14'),
  'C15': dict(text='TLC enumerates (op, position, foreign character class); the driver puts a same-valued foreign digit / look-alike letter at every position of corpus numbers of every module (all Nd/No/Nl code points outside the clean-up table in thorough), plus case-mapping specials over the whole corpus; TLC evaluates S1 (returned value is ASCII) on every accepted session; exclusions are constants of the spec.',
              note='Acceptance itself is not judged, only pass-through of non-ASCII characters.',
              tech='TLA+ contract clause S1 (Api.tla) + TLC trace validation; TLC-generated foreign-character edits', ref='DESIGN.md §4 C15'),
@@ -53,9 +59,9 @@ def main():
     m = {
         'version': 1,
         'setup_cmd': './setup.sh',
-        'hooks': {'guard': 'STDNUM_VERIF', 'enable': 'export STDNUM_VERIF=1 (set by the checks that need hooks; none committed yet)',
+        'hooks': {'guard': 'STDNUM_VERIF', 'enable': 'export STDNUM_VERIF=1 with /verif/harness on PYTHONPATH (module stdnum_verif_hooks); set by the C13 check for the interpreters it starts',
                   'baseline_off_cmd': 'cd /repo && /venv/bin/python -m pytest -ra -q -p no:cacheprovider --timeout=900 --continue-on-collection-errors',
-                  'source_commits': [], 'add_only': True},
+                  'source_commits': ['145e5b0'], 'add_only': True},
         'engines': [{'name': 'tlc', 'path': '/opt/veriftools/tla/tla2tools.jar', 'serves_properties': sorted(CHECKS),
                      'kind_free_text': 'TLC 1.8 explicit-state model checker: exhaustive MC of spec instances, behaviour generation, trace validation'}],
         'checks': checks,
